@@ -3,7 +3,7 @@
 (* shows the value Arith!AEval gives that expression for that entry (where   *)
 (* defined), whatever other columns stand next to it; WHERE on an expression *)
 (* selects exactly the entries whose value satisfies the comparison.         *)
-EXTENDS Arith, TLC, Json, IOUtils, FiniteSets
+EXTENDS Arith, Agg, TLC, Json, IOUtils, FiniteSets
 
 Rec == ndJsonDeserialize(IOEnv.OBS)
 VARIABLE l
@@ -24,7 +24,14 @@ Verdict(r) ==
       badCell == IF r.kind = "where" THEN {}
                  ELSE { <<i, j>> \in (1 .. Len(rows)) \X (1 .. Len(r.exprs)) :
                           ids[i] # 0 /\ LET e == AEval(r, ids[i], r.exprs[j], 1) IN e.ok /\ ~CellIsInt(rows[i][1 + off + j], e.v) }
-      badLit == { <<i, k>> \in (1 .. Len(rows)) \X (1 .. Len(r.lits)) : rows[i][1 + loff + k] # r.lits[k] }
+      badLit == IF r.kind = "bigproduct" THEN {}
+                ELSE { <<i, k>> \in (1 .. Len(rows)) \X (1 .. Len(r.lits)) : rows[i][1 + loff + k] # r.lits[k] }
+      \* the exact product of the factors, and the rows whose cell is not within 10^-9 of it
+      BigOf(ds) == FromDigits([i \in 1 .. Len(ds) |-> DigitVal(ds[i])])
+      RECURSIVE ProdFrom(_)
+      ProdFrom(k) == IF k > Len(r.lits) THEN <<1>> ELSE Mul(BigOf(r.lits[k]), ProdFrom(k + 1))
+      badBig == IF r.kind # "bigproduct" THEN {}
+                ELSE { i \in 1 .. Len(rows) : LET d == ParseDec(rows[i][2]) IN ~(d.ok /\ ~d.neg /\ CloseRel(d.num, Pow10(d.scale), ProdFrom(1), <<1>>, 9)) }
       firstBad == CHOOSE p \in badCell : \A q \in badCell : p[2] <= q[2]
       y == IF r.obs.q.timed_out THEN "timeout" ELSE IF r.obs.q.panic THEN "crash"
            ELSE IF r.obs.q.status = 2 THEN "rejected-as-malformed"
@@ -34,6 +41,7 @@ Verdict(r) ==
            ELSE IF must \ { ids[i] : i \in 1 .. Len(ids) } # {} THEN "missing-row"
            ELSE IF badCell # {} THEN "wrong-value-column" \o ToString(firstBad[2])
            ELSE IF badLit # {} THEN "text-literal-shows-another-column"
+           ELSE IF badBig # {} THEN "wrong-large-product"
            ELSE "ok"
   IN [id |-> r.id, ok |-> (y = "ok"), class |-> r.class, why |-> y, key |-> "C15/" \o r.class \o "/" \o y,
       nontrivial |-> (IF r.kind = "where" THEN must # {} /\ must # all
